@@ -19,7 +19,7 @@ RULE = ("Histories over {create(f2003), create(f2008), parse(v1..v5), parse(i1..
         "before; (b) every parse directly after create(s) gives the result (repr, str with BLOCK renumbering, or "
         "error text) of create(s); parse(x) in a fresh child; (c) so does a parse separated from its create only by "
         "failing parses. Non-trivial = a failing parse followed by a successful one, or both standards.")
-EXHAUSTIVE_RULE = "all histories create(s0) + (n-1) symbols over the 13-symbol alphabet, n <= 3 (quick) / 4 (thorough), + 4 probes"
+EXHAUSTIVE_RULE = "all histories create(s0) + (n-1) symbols over the 14-symbol alphabet, n <= 3 (quick) / 4 (thorough), + probes"
 MIN_NONTRIVIAL = 0.3
 ASSUMPTIONS = ["successful parses may leave their symbol tables behind (by design); only failures and create() must not leak"]
 
@@ -30,6 +30,7 @@ SOURCES = {
     "v4": "program p3\nx = sin(1.0)\nend program p3\n",
     "v5": "subroutine s5\nuse m1, only: aa\nx = F(A(1)) + f((a(1)))\nX = f(a(1)) + 1.0E3\nend subroutine s5\n",
     "v6": "subroutine s6(total)\nprint *, 'total = ', total ! c\ncall f('a', i) ! it's\nwrite(6, '(a)') \"x\", y  ! \"q\nend subroutine s6\n",
+    "v7": "subroutine s7\nx = erf(y) + gamma(z)\ni = shiftl(j, 2) + iabs(k) + shifta(j, 1)\nz = dsqrt(w) + amax1(a, b) + shiftr(j, 3)\nend subroutine s7\n",
     "i1": "program p3\nx = = 1\nend program p3\n",
     "i2": "subroutine s1\ninteger :: max\nif (a) then\ndo i = 1, 2\n@@@\nend do\nend if\nend subroutine s1\n",
     "i3": "program p3\ninteger :: tan\nx = sin(1, 2, 3)\nend program p3\n",
@@ -88,7 +89,8 @@ end module rich_m
 """
 SOURCES["rich"] = RICH
 SYMS = ["c3", "c8"] + sorted(k for k in SOURCES if k != "rich")
-PROBES = [("f2003", "v4"), ("f2008", "v2"), ("f2008", "v1"), ("f2003", "v5"), ("f2003", "v6"), ("f2008", "v6")]
+PROBES = [("f2003", "v4"), ("f2008", "v2"), ("f2008", "v1"), ("f2003", "v5"), ("f2003", "v6"), ("f2008", "v6"),
+          ("f2008", "v7"), ("f2003", "v7")]
 
 
 def exhaustive(tier, flags):
@@ -234,7 +236,10 @@ def failing_unit(src, errtext):
     import re
     global _HEADER
     if _HEADER is None:
-        _HEADER = re.compile(r"^\s*(?:[a-z0-9_=*() ,]*?\s)?(module|program|subroutine|function|submodule\s*\([^)]*\)|block\s*data)"
+        prefix = (r"(?:(?:recursive|pure|elemental|impure|module|integer|real|logical|complex|character|double\s*precision|"
+                  r"double\s*complex|type\s*\([^)]*\)|class\s*\([^)]*\))"
+                  r"(?:\s*\*\s*\d+|\s*\([^()]*(?:\([^()]*\)[^()]*)*\))?\s+)*")
+        _HEADER = re.compile(r"^\s*" + prefix + r"(module|program|subroutine|function|submodule\s*\([^)]*\)|block\s*data)"
                              r"\s+([a-z_]\w*)", re.I)
     m = re.match(r"at line (\d+)", errtext or "")
     errline = int(m.group(1)) if m else 10 ** 9
